@@ -382,12 +382,21 @@ inline T const& oracle_arg(T const& v)
 inline char const* oracle_arg(char const* const& v) { return v ? v : ""; }
 inline char const* oracle_arg(char* const& v) { return v ? v : ""; }
 
+// sanitisation configuration of the run (BackendOptions::check_printable_char): 0 = default predicate, 1 = disabled,
+// 2 = user predicate that additionally lets tabs and bytes >= 0x80 (UTF-8) through
+inline int g_sanit_mode = 0;
+inline bool ref_printable(char c)
+{
+  if ((c >= ' ' && c <= '~') || c == '\n') return true;
+  return g_sanit_mode == 2 && (c == '\t' || static_cast<unsigned char>(c) >= 0x80);
+}
 inline std::string sanitize_ref(std::string const& s)
 {
+  if (g_sanit_mode == 1) return s;
   std::string o;
   for (char c : s)
   {
-    if ((c >= ' ' && c <= '~') || c == '\n')
+    if (ref_printable(c))
       o += c;
     else
     {
